@@ -1,8 +1,20 @@
 /-
-  C11 — property theorems (model and spec: ShelxModel/C11.lean, table: ShelxModel/C11Table.lean).
+  C11 — property theorems.
+    spec, operators, checkers : ShelxModel/C11Core.lean       model of the code : ShelxModel/C11.lean
+    tabulated settings        : ShelxModel/C11Table.lean      helper lemmas     : ShelxProps/Lemmas/C11Closed.lean
+    centring table of the code: ShelxModel/Extracted/Latt.lean (REGENERATED from cards.py on every run)
+
+  expand_perm    ∀ N S, ValidSetting N S → the list the code builds is a permutation (mod ℤ³) of the space group
+  expand_card    … and has (1 + |S|) · mult N · (2 if N > 0) members
+  expand_nodup   … each class once
+  expand_closed  … and is closed under composition whenever the setting is (ClosedSetting)
+  lattTable_matches_manual   the regenerated `lattdict` is the SHELXL manual's LATT table (decide, every run)
+  tabulated_settings_valid_and_closed   43 real settings (P I R F A B C, centric/acentric, all crystal systems):
+                 valid, closed, model expansion = the group with the order International Tables A give
 -/
 import ShelxModel.C11
 import ShelxModel.C11Table
+import ShelxProps.Lemmas.C11Closed
 import Mathlib.Tactic.Ring
 import Mathlib.Tactic.Linarith
 import Mathlib.Tactic.Push
@@ -236,5 +248,65 @@ theorem expand_nodup (N : Int) (S : List Op) (h : ValidSetting N S) :
     ∃ L, expand N S = some L ∧ (L.map cls).Nodup := by
   obtain ⟨L, hL, hp⟩ := expand_perm N S h
   exact ⟨L, hL, hp.nodup_iff.mpr h.2⟩
+
+/-- the setting describes a group: its spec list is closed under composition modulo ℤ³ (decidable) -/
+def ClosedSetting (N : Int) (S : List Op) : Prop := Closed (fullGroup N S)
+
+instance (N : Int) (S : List Op) : Decidable (ClosedSetting N S) := by unfold ClosedSetting; infer_instance
+
+/-- **expand_closed** — for a closed valid setting the code's list is closed under composition modulo ℤ³ -/
+theorem expand_closed (N : Int) (S : List Op) (h : ValidSetting N S) (hc : ClosedSetting N S) :
+    ∃ L, expand N S = some L ∧ Closed L := by
+  obtain ⟨L, hL, hp⟩ := expand_perm N S h
+  exact ⟨L, hL, closed_of_perm hp hc⟩
+
+/-! ### concrete inputs meet the hypotheses; the hypothesis is needed -/
+
+/-- P2(1)/c: LATT 1, SYMM -X, 1/2+Y, 1/2-Z -/
+example : ValidSetting 1 [mkOp (-1) 0 0 0 1 0 0 0 (-1) 0 (1/2) (1/2)] ∧ ClosedSetting 1 [mkOp (-1) 0 0 0 1 0 0 0 (-1) 0 (1/2) (1/2)] := by
+  decide +kernel
+
+/-- C2/c: LATT 7, SYMM -X, Y, 1/2-Z (centred and centrosymmetric) -/
+example : ValidSetting 7 [mkOp (-1) 0 0 0 1 0 0 0 (-1) 0 0 (1/2)] ∧ ClosedSetting 7 [mkOp (-1) 0 0 0 1 0 0 0 (-1) 0 0 (1/2)] := by
+  decide +kernel
+
+/-- a valid setting that is no group (the theorems `expand_perm`, `expand_card` do not need closure) -/
+example : ValidSetting (-3) [mkOp 0 (-1) 0 1 (-1) 0 0 0 1 0 0 (1/6)] := by decide +kernel
+
+/-- why `ValidSetting` is there: a SYMM line that repeats an operator the lattice already generates (here the
+    I-centring translation itself) is appended unconditionally by `SymmCards.append`, and the list has that class
+    twice (the real code does the same: LATT -2 / SYMM 1/2+X, 1/2+Y, 1/2+Z gives 4 operators, two pairs) -/
+theorem expand_duplicates_outside_valid :
+    ∃ L, expand (-2) [mkOp 1 0 0 0 1 0 0 0 1 (1/2) (1/2) (1/2)] = some L ∧ ¬ (L.map cls).Nodup := by
+  refine ⟨[ident, applyLatt ident ⟨1/2, 1/2, 1/2⟩, mkOp 1 0 0 0 1 0 0 0 1 (1/2) (1/2) (1/2)], by decide +kernel, by decide +kernel⟩
+
+/-! ### the tabulated settings -/
+
+/-- model side, evaluated in the kernel with the REGENERATED centring table: the expansion exists, has the number
+    of operators International Tables A give for the group, and no class twice -/
+def modelOK (e : Setting) : Bool :=
+  match expand e.N e.S with
+  | none => false
+  | some L => L.length == e.order && nodupB L
+
+set_option maxRecDepth 100000 in
+theorem settings_modelOK : settings.all modelOK = true := by decide +kernel
+
+/-- **tabulated_settings_valid_and_closed** — for each of the 43 tabulated space-group settings: it is a valid
+    setting; its spec list is closed under composition mod ℤ³ and has the order of the group (ITA); the model's
+    expansion exists, has exactly that many operators, each class once, is closed under composition mod ℤ³ and is a
+    permutation of the spec list (so: it *is* the group generated by SYMM, centring and inversion). -/
+theorem tabulated_settings_valid_and_closed : ∀ e ∈ settings,
+    ValidSetting e.N e.S ∧ ClosedSetting e.N e.S ∧
+    ∃ L, expand e.N e.S = some L ∧ L.length = e.order ∧ (L.map cls).Nodup ∧ Closed L ∧
+      L.map cls ~ (fullGroup e.N e.S).map cls := by
+  intro e he
+  obtain ⟨hv, hc, _⟩ := specOK_sound e (settings_specOK e he)
+  obtain ⟨L, hL, hp⟩ := expand_perm e.N e.S hv
+  have hm := List.all_eq_true.mp settings_modelOK e he
+  simp only [modelOK, hL, Bool.and_eq_true, beq_iff_eq] at hm
+  exact ⟨hv, hc, L, hL, hm.1, nodupB_sound L hm.2, closed_of_perm hp hc, hp⟩
+
+theorem settings_count : settings.length = 43 := by decide
 
 end Shelx.C11
